@@ -25,6 +25,10 @@ for sid in ids:
     if "genesis" in j: c["genesis"] = j["genesis"]
     tmp = dst + ".tmp"; json.dump(c, open(tmp, "w"))
     tr = subprocess.run([drive, "-replay", tmp], capture_output=True, timeout=600).stdout
+    if b"skippedSchedule" in tr:
+        os.remove(tmp); skipped.append((sid, "jumps over a height with scheduled work (not a history a chain can have)"))
+        if os.path.exists(dst): os.remove(dst)
+        continue
     mo = subprocess.run([model], input=tr, capture_output=True).stdout.decode()
     bad = [l for l in mo.splitlines() if l.startswith(("MISMATCH", "DECODE", "PARSE")) or (l.startswith("MONITOR") and f"prop={prop} " in l)]
     if bad or "SUMMARY" not in mo:
